@@ -1,6 +1,6 @@
 #!/bin/bash
 # sensitivity matrix: every kept seeded change against the quick check of its own property
 cd /verif
-for d in seeded/*/; do n=$(basename $d); id=${n%[ab]}; 
+for d in seeded/*/; do n=$(basename $d); id=$(echo $n | grep -oE "C[0-9][0-9]"); 
   if grep -q '"status_note"' $d/meta.json 2>/dev/null; then echo "$n: skipped (obsolete)"; continue; fi
   tools/seedtest.sh $n $id 2>&1 | grep -E "^$n|does not apply" ; done
